@@ -2,6 +2,7 @@ import SfxModel.DriverArith
 import SfxModel.DriverWrap
 import SfxModel.DriverCodec
 import SfxModel.DriverConv
+import SfxModel.DriverMath
 /-
   Main.lean — line-protocol driver.  stdin: the Rust harness' output, one `request => answer` per line.
   For every line: recompute the answer with the model (projected to the build profile given as the first
@@ -40,6 +41,7 @@ def modelOf (prof : Profile) (L : Layout) (op : String) (args : List String) : O
   if op == "wprog" then (DriverWrap.run L prof args).map (·.1)
   else if codecOps.contains op then DriverCodec.model L op args
   else if isConvOp op then DriverConv.model prof L op args
+  else if op.startsWith "t_" then DriverMath.model prof L op args
   else match args.mapM String.toInt? with
   | some ints => (DriverArith.model L (DriverArith.baseOp op) ints).map (Outcome.render prof)
   | none => none
@@ -53,11 +55,11 @@ def specOf (prof : Profile) (L : Layout) (op : String) (args : List String) : Op
   | some ints => (DriverArith.spec L (DriverArith.baseOp op) ints).map (Outcome.render prof)
   | none => none
 
-def isSpecial (ans : String) : Bool := ans == "P" || ans == "N" || ans == "U" || ans.endsWith ",1" || ans.endsWith ";P"
+def isSpecial (ans : String) : Bool := ans == "P" || ans.startsWith "E;" || ans == "N" || ans == "U" || ans.endsWith ",1" || ans.endsWith ";P"
 
 def argsInRange (L : Layout) (op : String) (args : List String) : Bool :=
   -- operands of typed arithmetic requests are bit patterns of the layout (the driver rejects others)
-  if op.startsWith "h_div_rem_from" || op == "wprog" || op == "decode" || op.startsWith "from_" || isConvOp op then true
+  if op.startsWith "h_div_rem_from" || op.startsWith "t_" || op == "wprog" || op == "decode" || op.startsWith "from_" || isConvOp op then true
   else args.all (fun a => match a.toInt? with | some i => decide (inRange L i) | none => true)
 
 partial def loop (prof : Profile) (h : IO.FS.Stream) (out : IO.FS.Stream) (st : Stats) : IO Stats := do
@@ -90,6 +92,13 @@ partial def loop (prof : Profile) (h : IO.FS.Stream) (out : IO.FS.Stream) (st : 
                   out.putStrLn s!"DIFF {line} model={ms}"
                   pure { st with diff := st.diff + 1 }
                 else pure st
+          let st ← (if op.startsWith "t_" then
+              match DriverMath.verdict prof L op args ans with
+              | none => pure st
+              | some msg => do
+                  out.putStrLn s!"SPEC {line} spec={msg.replace " " "_"}"
+                  pure { st with spec := st.spec + 1 }
+            else pure st)
           let st ← match specOf prof L op args with
             | none => pure { st with nospec := st.nospec + 1 }
             | some ss =>
